@@ -311,6 +311,8 @@ class ExprGen:
         kw = {}
         if allow_filter and rng.random() < 0.3:
             kw["flt"] = [self.nonconst("bool", scope, 1)]
+            if rng.random() < 0.35:
+                kw["flt"].append(self.nonconst("bool", scope, 1))  # several conditions are AND-ed
         if pb is not None:
             kw["pb"] = pb
         if op == "count_star":
